@@ -180,7 +180,7 @@ void regIOFull() {
 }
 
 void registerInOut() {
-#ifdef C11_FULL
+#if 0 // full matrix: see c11_x_*.cpp
   regIOFull<void>();
   regIOFull<uint32_t>();
   regIOFull<uint64_t>();
